@@ -68,6 +68,7 @@ class ProtoWorld:
         site = '%s:%d' % (node['_file'].split('/')[-1].replace('.rs', ''), node['line'])
         fails = I.fresh('spawn_fails@' + site)
         if I.branch(fails):
+            I.effect('spawn_failed', site=site, line=node['line'])
             return err(Opaque('IoError', msg='spawn failed', kind=REnum('ErrorKind', 'Other')))
         k = self.n_proc.get(site, 0)
         self.n_proc[site] = k + 1
